@@ -35,6 +35,10 @@ pub trait VF: RichField + Extendable<2> {
         let _ = prefix;
         (vals.to_vec(), vals.to_vec())
     }
+    /// multiplicative factors of the term: x == 0 iff some factor == 0 (natively: [x])
+    fn factors(x: Self) -> Vec<Self> {
+        vec![x]
+    }
     /// does `term` syntactically depend on symbol `sym`? (natively: true)
     fn mentions(term: Self, sym: Self) -> bool {
         let _ = (term, sym);
@@ -83,6 +87,9 @@ impl VF for SymF {
         }
         let defs = vals.iter().map(|v| SymF::from_op(crate::subst(v.op(), &map, true))).collect();
         (syms, defs)
+    }
+    fn factors(x: Self) -> Vec<Self> {
+        crate::factors(x.op()).into_iter().map(SymF::from_op).collect()
     }
     fn mentions(term: Self, sym: Self) -> bool {
         match sym.op() {
@@ -133,6 +140,7 @@ pub enum A {
     Def(Op, Op),
     Ne(Op, Op),
     AnyNe(Vec<(Op, Op)>),
+    AnyEq(Vec<(Op, Op)>),
     /// acceptance of a verifier run: ok-flag and recorded atoms
     Accept(bool, Vec<(Op, Op)>),
     Bool(bool),
@@ -143,6 +151,14 @@ pub fn eq<F: VF>(a: F, b: F) -> A {
 }
 pub fn def<F: VF>(sym: F, term: F) -> A {
     A::Def(sym.to_op(), term.to_op())
+}
+/// x == 0, stated through the zero-product law over the syntactic factors of x
+pub fn eqz_factored<F: VF>(x: F) -> A {
+    let fs = F::factors(x);
+    if fs.len() == 1 {
+        return eq(x, F::ZERO);
+    }
+    A::AnyEq(fs.into_iter().map(|f| (f.to_op(), Op::C(0))).collect())
 }
 pub fn ne<F: VF>(a: F, b: F) -> A {
     A::Ne(a.to_op(), b.to_op())
@@ -163,6 +179,7 @@ impl A {
             A::Def(a, b) => vec![Atom::Def(*a, *b)],
             A::Ne(a, b) => vec![Atom::Ne(*a, *b)],
             A::AnyNe(v) => vec![Atom::AnyNe(v.clone())],
+            A::AnyEq(v) => vec![Atom::AnyEq(v.clone())],
             A::Accept(ok, atoms) => {
                 if !*ok {
                     vec![Atom::False]
@@ -189,6 +206,7 @@ impl A {
             A::Eq(a, b) | A::Def(a, b) => c(a) == c(b),
             A::Ne(a, b) => c(a) != c(b),
             A::AnyNe(v) => v.iter().any(|(a, b)| c(a) != c(b)),
+            A::AnyEq(v) => v.iter().any(|(a, b)| c(a) == c(b)),
             A::Accept(ok, atoms) => *ok && atoms.iter().all(|(a, b)| c(a) == c(b)),
             A::Bool(b) => *b,
         }
